@@ -7,5 +7,7 @@ IDS=("$@"); [ ${#IDS[@]} -eq 0 ] && IDS=($(ls seeded | grep -E '^C[0-9]+-[0-9]+$
 for id in "${IDS[@]}"; do
   P=${id%-*}; K=${id#*-}
   extra=(); [ "$P" = "C20" ] && [ "$K" = "2" ] && extra=(C20 C17)
+  [ "$id" = "C14-6" ] && extra=(C14 C17 C20)   # independence of copies: the property of C17 / C20
+  [ "$id" = "C18-6" ] && extra=(C18 C02)
   ./seedcheck.sh "$P" "$K" "${extra[@]}" | tee -a seeded/RESULTS.txt
 done
